@@ -1,60 +1,82 @@
 """C31 Method saves use optimistic concurrency without lost updates.
 
-Proof half: OPM.Properties.C31 — transition system of `FromFrontend.save_method` at await granularity, in two
-variants: without a lock the statement is false (decided two-save witness), with a per-engine lock held from the
-version check across the engine round trip to the commit it holds for every schedule of any number of saves
-(invariant + induction over reachability).  `OPM.Gen.SaveLock` (regenerated from the source on every run by
-harness/translators/save_lock.py) says which variant the code is; `code_holds_lock` is re-checked against it.
+Proof half: OPM.Properties.C31 — transition system of `FromFrontend.save_method` at await granularity together with
+engine disconnect / re-registration, in variants (lock across the round trip or not; method version reset to 0 on
+re-registration or continued): the statement holds for every schedule of any number of saves, engine answers,
+disconnects and re-registrations in the variant (locked, version continues) — invariant + induction over
+reachability — and is refuted by a decided schedule for each of the two defects.  `OPM.Gen.SaveLock` (regenerated
+from the source on every run by harness/translators/save_lock.py) says whether one lock spans a version check, the
+round trip and the commit; `code_holds_lock` is re-checked against it.
 
 Tie half (trace validation): the real route function `routers.process_unit.save_method` -> `FromFrontend.save_method`
-runs on an asyncio loop the harness steps by hand, against a dispatcher whose `rpc_call` suspends until the schedule
-answers it.  Every interleaving of 2 and 3 concurrent saves (all base versions around the current one, ok / error
-answers) is enumerated; after every event the observable state (method version, whose content is stored, pending
-round trips, blocked requests, accepted saves, messages the engine got, results) is compared with the model.
+and the real `AggregatorMessageHandlers` (registration, disconnect) run on an asyncio loop the harness steps by hand,
+against a dispatcher whose `rpc_call` suspends until the schedule answers it.  Which variant the code is, is
+*measured* by two probes on the real handlers (so a refactoring the AST translator does not understand cannot make the
+model diverge from correct code).  Every interleaving of 2 and 3 concurrent saves (all base versions around the
+current one, ok / error answers), and of 2 saves with an engine disconnect + re-registration at every point, is
+enumerated; after every event the observable state (registered, method version, whose content is stored, pending round
+trips, blocked requests, accepted saves, messages the engine got, results) is compared with the model.
 """
 from __future__ import annotations
 
 import asyncio
 import itertools
 import json
-from typing import Any
 from unittest.mock import AsyncMock, MagicMock
 
 from vp.core import Check, Failure
 
 META = dict(
-    level_text="Lean 4 theorems over the transition system of save_method at await granularity: with the per-engine "
-               "lock held from the version check across the engine round trip to the commit, for every interleaving of "
-               "any number of save requests and engine answers, accepted saves have pairwise distinct base versions, "
-               "each was based on the version current when it was accepted and raises the version by exactly one; "
-               "without the lock the statement is refuted by a decided two-save schedule. Which system the code is: AST "
-               "translator (lock around check, rpc and commit) + trace validation of the real handler under all "
-               "interleavings of 2-3 saves on a hand-stepped asyncio loop.",
+    level_text="Lean 4 theorems over the transition system of save_method at await granularity with engine disconnect "
+               "and re-registration: with the per-engine lock held from the version check across the engine round trip "
+               "to the commit and a method version that continues across re-registration, for every interleaving of any "
+               "number of save requests, engine answers, disconnects and re-registrations, accepted saves have pairwise "
+               "distinct base versions, each was based on the version current when it was accepted and raises the "
+               "version by exactly one, and the version never falls; without the lock, or with the version reset to 0 "
+               "on re-registration, the statement is refuted by a decided schedule. Which system the code is: two "
+               "behavioural probes + AST translator (lock around a check, the rpc and the commit) + trace validation of "
+               "the real handlers under all interleavings of 2-3 saves (and 2 saves with a reconnect) on a hand-stepped "
+               "asyncio loop.",
     level_note="Partial in granularity: atomic steps are the await points of the handler (asyncio cannot preempt "
-               "elsewhere); one engine id; the engine's answer is ok/error as scheduled. Trusted: Lean kernel, the "
-               "harness (fake dispatcher, manual loop stepping), asyncio.Lock FIFO hand-over (validated differentially).",
-    technique="Lean 4 proof (invariant over reachable states, decided counter-schedule for the unlocked system) + "
-              "AST lock table + exhaustive-interleaving trace validation",
+               "elsewhere); the arrival of the engine's answer and the commit are one step (a disconnect squeezed in "
+               "between — `engine_data is None` at the commit: the save is answered as accepted and nothing is stored — "
+               "is not modelled); a round trip in flight when the connection drops can only fail afterwards; one "
+               "engine id; one aggregator process (a restarted aggregator starts every method at version 0 again); the "
+               "engine's MethodMsg after re-registration replaces the lines without changing the version and is covered "
+               "by the version step of the re-registration itself. Trusted: Lean kernel, the harness (fake dispatcher, "
+               "manual loop stepping), asyncio.Lock FIFO hand-over (validated differentially).",
+    technique="Lean 4 proof (invariant over reachable states, decided counter-schedules for the two defective systems) "
+              "+ behavioural probes + AST lock table + exhaustive-interleaving trace validation",
 )
 MODULE = "OPM.Properties.C31"
-REQUIRED = ["OPM.C31.locked_holds", "OPM.C31.unlocked_violates", "OPM.C31.code_holds_lock", "OPM.C31.c31"]
-EID = "pc_uod"
+REQUIRED = ["OPM.C31.locked_holds", "OPM.C31.unlocked_violates", "OPM.C31.version_reset_violates",
+            "OPM.C31.code_holds_lock", "OPM.C31.c31"]
 ERR_KINDS = ("internal", "caller", "raise")
+_db_ready = False
 
 
 # ------------------------------------------------------------------------------------------------
-# the real handler on a hand-stepped loop
+# the real handlers on a hand-stepped loop
 
 class SaveHarness:
-    """One aggregator with one registered engine whose method is at version v0; a dispatcher whose rpc_call
-    suspends on a future until `reply` resolves it."""
+    """One aggregator with one engine, registered through the real message handlers, whose method is at version v0; a
+    dispatcher whose rpc_call suspends on a future until `reply` resolves it."""
 
     def __init__(self, v0: int):
+        global _db_ready
+        import openpectus.aggregator.data.models as DMdl
         import openpectus.aggregator.models as Mdl
         from openpectus.aggregator.aggregator import Aggregator
+        from openpectus.aggregator.aggregator_message_handlers import AggregatorMessageHandlers
+        from openpectus.aggregator.data import database
+        if not _db_ready:                       # engine_disconnected stores a RecentEngines row
+            database.configure_db("sqlite:///:memory:")
+            DMdl.DBModel.metadata.create_all(database._engine)  # type: ignore[arg-type]
+            _db_ready = True
         self.loop = asyncio.new_event_loop()
         asyncio.set_event_loop(self.loop)
         self.calls: list[tuple[int, int, asyncio.Future]] = []   # (save id, version sent, future)
+        self.doomed: set[int] = set()                             # round trips in flight when the connection dropped
         h = self
 
         class Dispatcher:
@@ -64,18 +86,33 @@ class SaveHarness:
                 h.calls.append((sid, message.method.version, fut))
                 return await fut
 
+            def has_connected_engine_id(self, engine_id):
+                return False
+
+            def __getattr__(self, name):        # set_*_handler of the real dispatcher
+                if name.startswith("set_"):
+                    return lambda *a, **k: None
+                raise AttributeError(name)
+
         publisher = MagicMock()
-        publisher.publish_method_changed = AsyncMock()
+        for name in ("publish_method_changed", "publish_control_state_changed", "publish_process_units_changed"):
+            setattr(publisher, name, AsyncMock())
         webpush = MagicMock()
         webpush.publish_message = AsyncMock()
         self.agg = Aggregator(Dispatcher(), publisher, webpush)  # type: ignore[arg-type]
-        ed = Mdl.EngineData(engine_id=EID, computer_name="pc", engine_version="0", uod_name="uod", uod_author_name="",
-                            uod_author_email="", uod_filename="", location="")
-        ed.method = Mdl.Method(lines=[], version=v0, last_author="")
-        self.agg._engine_data_map[EID] = ed
+        self.handlers = AggregatorMessageHandlers(self.agg)
+        self.eid = self.agg.create_engine_id(self._register_msg())
         self.started: list[tuple[int, int]] = []                  # (id, base) in start order
         self.results: list[tuple[int, str]] = []                  # (id, outcome) in completion order
         self.tasks: list[asyncio.Task] = []
+        self.register()
+        self.agg._engine_data_map[self.eid].method = Mdl.Method(lines=[], version=v0, last_author="")
+
+    def _register_msg(self):
+        import openpectus.protocol.engine_messages as EM
+        from openpectus import __version__
+        return EM.RegisterEngineMsg(computer_name="pc", uod_name="uod", uod_author_name="", uod_author_email="",
+                                    uod_filename="", location="", engine_version=__version__)
 
     def close(self):
         for t in self.tasks:
@@ -92,12 +129,25 @@ class SaveHarness:
     def settle(self):
         self._spin(6 + 3 * len(self.started))
 
+    def registered(self) -> bool:
+        return self.agg.get_registered_engine_data(self.eid) is not None
+
+    def register(self):
+        rep = self.loop.run_until_complete(self.handlers.handle_RegisterEngineMsg(self._register_msg()))
+        assert rep.success
+        self.settle()
+
+    def disconnect(self):
+        self.doomed |= set(self.pending())
+        self.loop.run_until_complete(self.handlers.handle_EngineDisconnected(self.eid))
+        self.settle()
+
     async def _runner(self, sid: int, base: int):
         import openpectus.aggregator.routers.dto as Dto
         from openpectus.aggregator.routers import process_unit
         try:
             r = await process_unit.save_method(
-                user_name=f"u{sid}", user_id=f"id{sid}", user_roles=set(), unit_id=EID,
+                user_name=f"u{sid}", user_id=f"id{sid}", user_roles=set(), unit_id=self.eid,
                 method_dto=Dto.Method(lines=[Dto.MethodLine(id="l1", content=f"save {sid}")], version=base,
                                       last_author=""),
                 agg=self.agg)
@@ -130,17 +180,41 @@ class SaveHarness:
             fut.set_result(M.ErrorMessage(message="bad method", caller_error=True))
         else:
             fut.set_exception(ProtocolException("Error in rpc call"))
+        self.doomed.discard(sid)
         self.settle()
 
+    def enabled(self, ev: list) -> bool:
+        if ev[0] == "start":
+            return ev[1] not in {i for (i, _) in self.started}
+        if ev[0] == "reply":
+            # a round trip that was in flight when the connection dropped cannot succeed any more
+            return ev[1] in self.pending() and not (ev[2] == "ok" and (ev[1] in self.doomed or not self.registered()))
+        if ev[0] == "disconnect":
+            return self.registered()
+        if ev[0] == "register":
+            return not self.registered()
+        return False
+
+    def apply(self, ev: list) -> None:
+        if ev[0] == "start":
+            self.start(ev[1], ev[2])
+        elif ev[0] == "reply":
+            self.reply(ev[1], ev[2])
+        elif ev[0] == "disconnect":
+            self.disconnect()
+        else:
+            self.register()
+
     # -- observation
-    def version(self) -> int:
-        return self.agg._engine_data_map[EID].method.version
+    def version(self) -> int | None:
+        ed = self.agg.get_registered_engine_data(self.eid)
+        return None if ed is None else ed.method.version
 
     def observe(self) -> str:
-        m = self.agg._engine_data_map[EID].method
+        ed = self.agg.get_registered_engine_data(self.eid)
         owner = "-"
-        if m.lines and m.lines[0].content.startswith("save "):
-            owner = m.lines[0].content.split()[1]
+        if ed is not None and ed.method.lines and ed.method.lines[0].content.startswith("save "):
+            owner = ed.method.lines[0].content.split()[1]
         done = {r[0] for r in self.results}
         pend = self.pending()
         blocked = [i for (i, _) in self.started if i not in done and i not in pend]
@@ -152,25 +226,44 @@ class SaveHarness:
 
         def sl(xs):
             return ";".join(xs) if xs else "-"
-        return (f"v={m.version} owner={owner} await={nl(pend)} wait={nl(blocked)} acc={sl(acc)} "
-                f"eng={nl([c[1] for c in self.calls])} res={sl([f'{i}:{o}' for (i, o) in self.results])}")
+        return (f"v={'-' if ed is None else ed.method.version} owner={owner} await={nl(pend)} wait={nl(blocked)} "
+                f"acc={sl(acc)} eng={nl([c[1] for c in self.calls])} res={sl([f'{i}:{o}' for (i, o) in self.results])}")
+
+
+def probe() -> tuple[bool, bool]:
+    """Measure which system the code is: (a second save entering during the first one's round trip is held back,
+    the method version after a disconnect + re-registration is 0 again)."""
+    h = SaveHarness(3)
+    try:
+        h.start(0, 3)
+        h.start(1, 3)
+        locked = 1 not in h.pending() and not any(i == 1 for (i, _) in h.results)
+    finally:
+        h.close()
+    h = SaveHarness(3)
+    try:
+        h.start(0, 3)
+        h.reply(0, "ok")
+        h.disconnect()
+        h.register()
+        reset = h.version() == 0
+    finally:
+        h.close()
+    return locked, reset
 
 
 def run_case(case: dict) -> tuple[list[str], list[dict]]:
-    """Execute one schedule on the real handler. Returns (canonical lines, per-event facts for the oracle)."""
+    """Execute one schedule on the real handlers. Returns (canonical lines, per-event facts for the oracle)."""
     h = SaveHarness(case["v0"])
     try:
         out = [h.observe()]
         facts = []
         for ev in case["events"]:
             v_before, n_before = h.version(), len(h.results)
-            if ev[0] == "start" and ev[1] not in {i for (i, _) in h.started}:
-                h.start(ev[1], ev[2])
-            elif ev[0] == "reply" and ev[1] in h.pending():
-                h.reply(ev[1], ev[2])
-            else:                      # the event is not enabled here (e.g. answer to a request that is still blocked)
+            if not h.enabled(ev):          # e.g. answer to a request that is still blocked
                 out.append("bad-op")
                 continue
+            h.apply(ev)
             out.append(h.observe())
             facts.append({"ev": ev, "v_before": v_before, "v_after": h.version(), "new": h.results[n_before:]})
         return out, facts
@@ -178,75 +271,98 @@ def run_case(case: dict) -> tuple[list[str], list[dict]]:
         h.close()
 
 
-def case_lines(case: dict, mutant: bool = False) -> list[str]:
-    ls = [f"{'initm' if mutant else 'init'}\t{case['v0']}"]
+def case_lines(case: dict, cfg: tuple[bool, bool], mutant: bool = False) -> list[str]:
+    ls = [f"{'initm' if mutant else 'init'}\t{case['v0']}\t{int(cfg[0])}\t{int(cfg[1])}"]
     for ev in case["events"]:
         if ev[0] == "start":
             ls.append(f"start\t{ev[1]}\t{ev[2]}")
-        else:
+        elif ev[0] == "reply":
             ls.append(f"reply\t{ev[1]}\t{1 if ev[2] == 'ok' else 0}")
+        else:
+            ls.append(ev[0])
     return ls
 
 
 # ------------------------------------------------------------------------------------------------
 # schedules
 
-def enumerate_schedules(v0: int, bases: list[int], rng, outcomes=("ok", "err")) -> list[dict]:
-    """All maximal schedules of the saves (id i has base bases[i]): DFS over the events the *implementation* has
-    enabled (start of a request not yet started; answer to a pending round trip)."""
+def enumerate_schedules(v0: int, bases: list[int], rng, outcomes=("ok", "err"), reconnects: int = 0) -> list[dict]:
+    """All maximal schedules of the saves (id i has base bases[i]) with up to `reconnects` disconnect +
+    re-registration cycles: DFS over the events the *implementation* has enabled (start of a request not yet
+    started; answer to a pending round trip; disconnect while registered; register while not)."""
     leaves: list[dict] = []
 
     def enabled(events):
         h = SaveHarness(v0)
         try:
             for ev in events:
-                (h.start(ev[1], ev[2]) if ev[0] == "start" else h.reply(ev[1], ev[2]))
+                h.apply(ev)
             started = {i for (i, _) in h.started}
-            return [i for i in range(len(bases)) if i not in started], h.pending()
+            return ([i for i in range(len(bases)) if i not in started], h.pending(), set(h.doomed), h.registered())
         finally:
             h.close()
 
     def dfs(events):
-        unstarted, pend = enabled(events)
-        if not unstarted and not pend:
+        unstarted, pend, doomed, reg = enabled(events)
+        used = sum(1 for e in events if e[0] == "disconnect")
+        if not unstarted and not pend and reg:
             leaves.append({"v0": v0, "events": events})
-            return
+            if used >= reconnects:
+                return
         for i in unstarted:
             dfs(events + [["start", i, bases[i]]])
         for i in pend:
             for o in outcomes:
+                if o == "ok" and (i in doomed or not reg):
+                    continue
                 kind = "ok" if o == "ok" else rng.choice(ERR_KINDS)
                 dfs(events + [["reply", i, kind]])
+        if reg and used < reconnects and (unstarted or pend or events):
+            dfs(events + [["disconnect"]])
+        if not reg:
+            dfs(events + [["register"]])
     dfs([])
     return leaves
 
 
 def random_schedule(rng, n: int, v0: int) -> dict:
-    """Longer random schedule; a request is mostly based on the version current when it enters."""
+    """Longer random schedule; a request is mostly based on the version current when it enters; the engine drops and
+    comes back now and then."""
     h = SaveHarness(v0)
     events = []
     try:
         nxt = 0
+        last_version = v0
         while True:
             pend = h.pending()
+            reg = h.registered()
             choices = []
             if nxt < n:
-                choices += ["start"] * 2
+                choices += ["start"] * 3
             if pend:
-                choices += ["reply"] * 3
+                choices += ["reply"] * 4
+            if reg and (nxt < n or pend):
+                choices += ["disconnect"]
+            if not reg:
+                choices += ["register"] * 3
             if not choices:
                 break
-            if rng.choice(choices) == "start":
+            c = rng.choice(choices)
+            if c == "start":
                 cur = h.version()
-                base = cur if rng.random() < 0.7 else max(0, cur + rng.choice([-2, -1, 1]))
+                cur = last_version if cur is None else cur
+                base = cur if rng.random() < 0.6 else max(0, cur + rng.choice([-2, -1, 1, 0 - cur]))
                 ev = ["start", nxt, base]
-                h.start(nxt, base)
                 nxt += 1
-            else:
+            elif c == "reply":
                 i = rng.choice(pend)
-                kind = "ok" if rng.random() < 0.75 else rng.choice(ERR_KINDS)
-                ev = ["reply", i, kind]
-                h.reply(i, kind)
+                ok = rng.random() < 0.75 and i not in h.doomed and reg
+                ev = ["reply", i, "ok" if ok else rng.choice(ERR_KINDS)]
+            else:
+                ev = [c]
+            h.apply(ev)
+            if h.version() is not None:
+                last_version = h.version()
             events.append(ev)
         return {"v0": v0, "events": events}
     finally:
@@ -269,56 +385,89 @@ def oracle(case: dict, facts: list[dict]) -> list[Failure]:
                 fails.append(Failure("save-accepted-on-stale-version", case,
                                      f"save {i} based on version {base[i]} was accepted when the method version was {v}"))
             # … and each accepted save increases the version by exactly one
-            if f["v_after"] != v + 1 or len(oks) > 1:
+            if v is None or f["v_after"] != v + 1 or len(oks) > 1:
                 fails.append(Failure("accepted-save-did-not-increase-version-by-one", case,
                                      f"save {i} accepted: version {v} -> {f['v_after']}"))
             accepted.append((i, base[i]))
             v = f["v_after"]
-        if not oks and f["v_after"] != f["v_before"]:
+        if not oks and f["ev"][0] in ("start", "reply") and f["v_after"] != f["v_before"]:
             fails.append(Failure("version-changed-without-accepted-save", case,
                                  f"event {f['ev']}: version {f['v_before']} -> {f['v_after']}"))
+    # of any set of saves based on the same version at most one is accepted — also across an engine reconnect
     by_base: dict[int, list[int]] = {}
     for (i, b) in accepted:
         by_base.setdefault(b, []).append(i)
     for b, ids in sorted(by_base.items()):
         if len(ids) > 1:
-            fails.append(Failure("two-saves-on-same-version-both-accepted", case,
-                                 f"saves {ids} were all based on version {b} and all accepted"))
-    # report the most telling signature first
-    fails.sort(key=lambda x: 0 if x.key == "two-saves-on-same-version-both-accepted" else 1)
+            across = any(e[0] == "register" for e in case["events"])
+            key = "two-saves-on-same-version-both-accepted" + ("-across-reconnect" if across and _separated(case, ids) else "")
+            fails.append(Failure(key, case, f"saves {ids} were all based on version {b} and all accepted"))
+    fails.sort(key=lambda x: 0 if x.key.startswith("two-saves-on-same-version-both-accepted") else 1)
     return fails
 
 
+def _separated(case: dict, ids: list[int]) -> bool:
+    """a re-registration lies between the starts of the first two of these saves"""
+    pos = {e[1]: k for k, e in enumerate(case["events"]) if e[0] == "start"}
+    a, b = sorted(pos[i] for i in ids[:2])
+    return any(e[0] == "register" for e in case["events"][a:b])
+
+
 WITNESS = {"v0": 0, "events": [["start", 0, 0], ["start", 1, 0], ["reply", 0, "ok"], ["reply", 1, "ok"]]}
+RECONNECT_WITNESS = {"v0": 0, "events": [["start", 0, 0], ["reply", 0, "ok"], ["disconnect"], ["register"],
+                                         ["start", 1, 0], ["reply", 1, "ok"]]}
 
 
 def run(ctx: Check) -> int:
     from harness.translators import save_lock
     from vp.core import load_corpus
-    table = save_lock.generate()
+    # the regenerated table is shared by every run in this tree: re-check it after the build (a concurrent run on
+    # another source tree may have rewritten it) and repeat if it was replaced
+    for attempt in range(4):
+        table = save_lock.generate()
+        expected = save_lock.OUT.read_text()
+        ctx.proof_broken.clear()
+        ctx.prove(MODULE, REQUIRED)
+        if save_lock.OUT.read_text() == expected:
+            break
+        ctx.notes.append(f"lock table was rewritten by a concurrent run during the build (attempt {attempt + 1})")
     ctx.extra["lock_table"] = table
-    ctx.prove(MODULE, REQUIRED)
+    cfg = probe()
+    ctx.extra["measured_system"] = {"second_save_waits_for_the_first_round_trip": cfg[0],
+                                    "version_reset_to_0_on_reregistration": cfg[1]}
     rng = ctx.rng
 
-    cases: list[dict] = [WITNESS] + [c for c in load_corpus("C31") if "events" in c]
+    cases: list[dict] = [WITNESS, RECONNECT_WITNESS] + [c for c in load_corpus("C31") if "events" in c]
     v0 = 3
     around = [v0 - 1, v0, v0 + 1]
     for bases in itertools.product(around, repeat=2):                      # all 2-save interleavings
         cases += enumerate_schedules(v0, list(bases), rng)
     for bases in itertools.product(around, repeat=3):                      # all 3-save interleavings
         cases += enumerate_schedules(v0, list(bases), rng)
+    # 2 saves with one engine disconnect + re-registration at every point; version 0 so that a reset is visible
+    rec_bases = list(itertools.product([0, 1, 2], repeat=2)) if ctx.tier == "thorough" else \
+        [(0, 0), (0, 1), (0, 2), (1, 0), (1, 2)]
+    n_before = len(cases)
+    for bases in rec_bases:
+        cases += enumerate_schedules(0, list(bases), rng, reconnects=1)
+    n_rec = len(cases) - n_before
     if ctx.tier == "thorough":                                              # 4 saves, engine always answers ok
         for bases in [(v0, v0, v0, v0), (v0, v0, v0 + 1, v0 + 1), (v0, v0 + 1, v0, v0 + 2)]:
             cases += enumerate_schedules(v0, list(bases), rng, outcomes=("ok",))
+        for bases in [(0, 0, 1), (0, 1, 2)]:                                # 3 saves with a reconnect, answers ok
+            cases += enumerate_schedules(0, list(bases), rng, outcomes=("ok",), reconnects=1)
     n_exh = len(cases)
     for _ in range(ctx.n(150, 3000)):                                       # longer random schedules
         cases.append(random_schedule(rng, rng.randrange(2, 7), rng.randrange(0, 5)))
-    ctx.extra["schedules"] = {"exhaustive_small_scopes": n_exh, "random_longer": len(cases) - n_exh}
-    ctx.rule = ("schedules = event lists over {start(id, base), reply(id, ok|internal error|caller error|exception)}; "
-                "every maximal interleaving of 2 saves (bases in {v-1,v,v+1}^2) and of 3 saves (bases in {v-1,v,v+1}^3; "
-                "thorough: also 4 saves on three base vectors with ok answers), enumerated over the events the real "
-                "handler has enabled; plus random schedules of 2-6 saves mostly based on the then-current version. "
-                "Non-trivial = at least two saves overlap (a save enters while another one is in its round trip).")
+    ctx.extra["schedules"] = {"exhaustive_small_scopes": n_exh, "of_which_with_reconnect": n_rec,
+                              "random_longer": len(cases) - n_exh}
+    ctx.rule = ("schedules = event lists over {start(id, base), reply(id, ok|internal error|caller error|exception), "
+                "disconnect, register}; every maximal interleaving of 2 saves (bases in {v-1,v,v+1}^2) and of 3 saves "
+                "(bases in {v-1,v,v+1}^3); every interleaving of 2 saves (bases in {0,1,2}, quick: 5 base vectors) with "
+                "one engine disconnect + re-registration at every point (thorough: also 4 saves and 3 saves with a "
+                "reconnect on selected base vectors with ok answers), enumerated over the events the real handlers have "
+                "enabled; plus random schedules of 2-6 saves mostly based on the then-current version with random "
+                "reconnects. Non-trivial = at least two saves overlap, or a save is made after a re-registration.")
 
     facts_of: dict[int, list[dict]] = {}
 
@@ -331,16 +480,25 @@ def run(ctx: Check) -> int:
         return any(" await=" in ln and "await=-" not in ln and ev[0] == "start"
                    for ln, ev in zip(out, c["events"]))
 
-    impl_out, model_out = ctx.correspond("save-schedules", "SaveConc", cases, case_lines, impl, nontrivial=overlap)
+    def after_reconnect(c):
+        evs = [e[0] for e in c["events"]]
+        return "register" in evs and "start" in evs[evs.index("register"):]
+
+    impl_out, model_out = ctx.correspond("save-schedules", "SaveConc", cases, lambda c: case_lines(c, cfg), impl,
+                                         nontrivial=lambda c, o: overlap(c, o) or after_reconnect(c))
     if model_out:
-        ctx.selftest("save-schedules", "SaveConc", cases, lambda c: case_lines(c, mutant=True), model_out)
+        ctx.selftest("save-schedules", "SaveConc", cases, lambda c: case_lines(c, cfg, mutant=True), model_out)
     for c, out in zip(cases, impl_out):
         n = sum(1 for e in c["events"] if e[0] == "start")
         ctx.count(f"saves={n}")
         ctx.count("overlapping" if overlap(c, out) else "sequential")
+        if after_reconnect(c):
+            ctx.count("save-after-reconnect")
         for e in c["events"]:
             if e[0] == "reply":
                 ctx.count("reply=" + e[2])
+            elif e[0] == "disconnect":
+                ctx.count("disconnect")
         last = next((ln for ln in reversed(out) if " acc=" in ln), "")
         acc = last.split(" acc=")[1].split(" ")[0] if last else "-"
         ctx.count("accepted=" + str(0 if acc == "-" else acc.count(":")))
@@ -350,9 +508,12 @@ def run(ctx: Check) -> int:
         for f in oracle(c, facts_of.get(id(c), []))[:1]:
             ctx.fail(f)
     ctx.exhaustive = True
-    ctx.assumptions = ["atomic steps are the await points of save_method (asyncio does not preempt elsewhere)",
-                       "one engine id; the engine's answer is what the schedule says (ok / ErrorMessage / exception)",
-                       "exhaustive for 2 and 3 saves with bases within one of the current version; longer schedules are sampled"]
+    ctx.assumptions = ["atomic steps are the await points of save_method (asyncio does not preempt elsewhere); the "
+                       "arrival of the engine's answer and the commit are one step",
+                       "a round trip that was in flight when the engine's connection dropped ends with an error",
+                       "one engine id; one aggregator process; the engine's answer is what the schedule says",
+                       "exhaustive for 2 and 3 saves with bases within one of the current version and for 2 saves with "
+                       "one reconnect; longer schedules are sampled"]
     return ctx.finish()
 
 
